@@ -860,12 +860,15 @@ Qed.
    soundness   every range verify_base64 returns is an occurrence in the sense of
                Modifiers.b64_occ_at (for some number 0..2 of bytes after the text):
                PROVED for the ascii encoding (PipelineB64Proofs.
-               pipeline_base64_sound_ascii_partial); for the wide encoding it is left
-               stated, and only for windows without '=' (verify_base64 drops every '='
-               found at an even offset of a wide window, also in the middle, where the
-               specification has no counterpart);
+               pipeline_base64_sound_ascii_partial) and, for data without '=', for the
+               wide encoding (pipeline_base64_sound_wide_partial); REFUTED for the wide
+               encoding otherwise (pipeline_base64_sound_wide_refuted: verify_base64 drops
+               every '=' found at an even offset of a wide window, also in the middle,
+               where the specification has no counterpart; replayed: a known finding);
    completeness every occurrence whose window is a whole number of 4-character
-               groups inside the data is found through the atom: left stated. *)
+               groups inside the data is found through the atom: PROVED for both
+               encodings under the side conditions the statement below omits -- a proper
+               alphabet without '=' (PipelineB64CompleteProofs.pipeline_base64_complete_partial). *)
 Definition pipeline_base64_sound_wide_partial_statement : Prop :=
   forall lit d p pos alpha s e, p <= 2 -> lit <> [] ->
     (forall i, nth_error d i = Some 61%N -> False) ->
